@@ -56,8 +56,9 @@ class Gen(cv.Gen):
     """cratesv2's history generator with REAL tracks: create_track / update / setters / remove_track on full
     snapshots, interleaved with the crate and membership calls (handles of removed things stay in use)."""
 
-    def __init__(self, rng, tier, hid, **kw):
+    def __init__(self, rng, tier, hid, foreign=False, **kw):
         super().__init__(rng, **kw)
+        self.foreign = foreign
         self.tier = tier
         self.uniq = hid * 1000
         self.fresh = 0
@@ -135,7 +136,10 @@ class Gen(cv.Gen):
         if not self.crates:
             return self.create()
         k = r.random()
-        if k < 0.50:
+        if self.foreign and k < 0.10:
+            # other software adds an entry for a track of ANOTHER database with the same numeric id
+            self.ops.append("addforeign %s %s %d" % (self.anyc(), self.anyt(), r.choice([1, 1, 2])))
+        elif k < 0.50:
             self.ops.append("addtrack %s %s" % (self.anyc(), self.anyt()))
         elif k < 0.55:
             self.ops.append("addtrackid %s %d" % (self.anyc(), r.choice([0, -1, 99, 1, 2, 3, 7])))
@@ -159,8 +163,8 @@ class Gen(cv.Gen):
         return r.choice(cv.NAMES_VALID[:4] if r.random() < 0.7 else cv.NAMES_VALID)
 
 
-def gen_history(rng, tier, hid, nops):
-    g = Gen(rng, tier, hid, max_crates=7, max_tracks=8)
+def gen_history(rng, tier, hid, nops, foreign=False):
+    g = Gen(rng, tier, hid, foreign=foreign, max_crates=7, max_tracks=8)
     # every handle variable is bound by a creation that cannot fail (fresh path, valid name)
     for _ in range(rng.randrange(2, 4)):
         g.mktrack(fresh_only=True)
@@ -193,9 +197,9 @@ def gen_history(rng, tier, hid, nops):
 OBS_Q = ("crate.q", "db.q", "snap", "get")
 
 
-def wrap(schema, ops, storage="mem", rows_every=6):
+def wrap(schema, ops, storage="mem", rows_every=6, create="create"):
     """Full script: after every call the crate observation and the dump of all tables."""
-    lines = [MODE, "create %s %s" % (schema, storage), "lib2.raw"]
+    lines = [MODE, "%s %s %s" % (create, schema, storage), "lib2.raw"]
     n = 0
     for op in ops:
         lines.append(op)
@@ -306,7 +310,7 @@ def obs_contents(obs):
 
 
 MUTATORS = ("mktrack", "update", "set", "rmtrack", "mkroot", "mkroot_after", "mksub", "mksub_after", "rename",
-            "setparent", "rmcrate", "addtrack", "addtrackid", "rmtrackfrom", "cleartracks")
+            "setparent", "rmcrate", "addtrack", "addtrackid", "rmtrackfrom", "cleartracks", "addforeign")
 
 
 def judge(results, part, want=("inv", "fk", "spec", "live", "failed", "blobs", "pragma")):
@@ -411,11 +415,11 @@ def shrink(v, part, want):
     body = [l for l in v["body"] if not l.startswith(("impl(", "model("))]
     if len(body) < 4:
         return v
-    schema, storage = body[1].split()[1], body[1].split()[2]
+    create, schema, storage = body[1].split()[0], body[1].split()[1], body[1].split()[2]
     ops = [l for l in body[2:] if not l.startswith(("v2.obs", "lib2."))]
 
     def bad(cand):
-        res = run_all([wrap(schema, cand, storage)])
+        res = run_all([wrap(schema, cand, storage, create=create)])
         _, viol, _ = judge(res, part, want)
         return viol[0] if viol else None
     cur, best = ops, None
